@@ -87,7 +87,7 @@ template <class C> void run_c64(C64World& w, const JV& hist, std::ostream& os, c
 // ------------------------------------------------------------------ ClipperOffset
 struct OffGroup { Paths64 paths; JoinType jt; EndType et; bool units_by_path; };
 struct OffWorld {
-  std::vector<OffGroup> groups; std::vector<double> deltas;
+  std::vector<OffGroup> groups; std::vector<double> deltas; const double ats[3] = {0.0, 2.0, 0.1};   // arc tolerance choices (0 = library default)
   std::map<Path64, int, bool (*)(const Path64&, const Path64&)> ring_ids{path_less};
   int ring_id(const Path64& p) { Path64 c = canon_path(p); auto it = ring_ids.find(c); if (it != ring_ids.end()) return it->second; int id = (int)ring_ids.size() + 1 + id_bias; ring_ids[c] = id; if (ring_os) (*ring_os) << Ev("Ring").kn("id", id).kv("p", jpath(c)).str() << "\n"; return id; }
   std::ostream* ring_os = nullptr; int id_bias = 0;   // rings first seen inside a forked chunk get ids that no other chunk uses   // every distinct ring is logged once, so the spec can decide class predicates on raw coordinates
@@ -125,11 +125,12 @@ void run_off(OffWorld& w, const JV& hist, std::ostream& os, long long& nexec) {
     if (op == 1) { auto& g = w.groups[arg - 1]; co.AddPaths(g.paths, g.jt, g.et); }
     else if (op == 4) co.Clear();
     else if (op == 5) co.ReverseSolution(arg != 0);
+    else if (op == 6) co.ArcTolerance(w.ats[arg]);
     else {
       Res got = w.exec(co, op, arg); ++nexec;
       ClipperOffset f; std::vector<std::string> fa;
       for (auto& ad : st[2].a) { auto& g = w.groups[ad[1].i() - 1]; f.AddPaths(g.paths, g.jt, g.et); fa.push_back(jints({ad[0].i(), ad[1].i()})); }
-      f.ReverseSolution(st[4].i() != 0);
+      f.ReverseSolution(st[4].i() != 0); f.ArcTolerance(w.ats[st[3].i()]);
       Res want = w.exec(f, op, arg); ++nexec;
       obs.push_back("[" + jnum((long long)i + 1) + "," + jnum(got == want) + ",1," + jnum((long long)got.closed.size()) + "," + jints(w.ids(got.closed)) + "]");
       fresh.push_back("[" + jarr(fa.begin(), fa.end(), [](const std::string& s) { return s; }) + "," + jnum(st[3].i()) + "," + jnum(st[4].i()) + "]");
@@ -171,12 +172,12 @@ int cmd_hist(const Args& a) {
   } else if (kind == "off") {
     bool neg = argi(a, "negative", 0) != 0; OffWorld w(r, G, K, neg); w.ring_os = &os;
     // preamble: every unit (path, or whole group when it has holes) offset ALONE with its group's join/end type
-    for (int rs = 0; rs < 2; ++rs) for (int d = 1; d <= K; ++d) for (int g = 1; g <= G; ++g) {
+    for (int at = 0; at < 3; ++at) for (int rs = 0; rs < 2; ++rs) for (int d = 1; d <= K; ++d) for (int g = 1; g <= G; ++g) {
       auto& og = w.groups[g - 1]; std::vector<long long> all;
       std::vector<Paths64> units; if (og.units_by_path) for (auto& p : og.paths) units.push_back({p}); else units.push_back(og.paths);
-      for (auto& u : units) { ClipperOffset co; co.ReverseSolution(rs); co.AddPaths(u, og.jt, og.et); Paths64 sol; co.Execute(w.deltas[d - 1], sol); ++nexec; for (long long x : w.ids(sol)) all.push_back(x); }
+      for (auto& u : units) { ClipperOffset co; co.ReverseSolution(rs); co.ArcTolerance(w.ats[at]); co.AddPaths(u, og.jt, og.et); Paths64 sol; co.Execute(w.deltas[d - 1], sol); ++nexec; for (long long x : w.ids(sol)) all.push_back(x); }
       std::sort(all.begin(), all.end());
-      os << Ev("OffUnit").kn("g", g).kn("d", d).kn("rs", rs).kn("et", (int)og.et).kn("jt", (int)og.jt).kn("npaths", (long long)og.paths.size()).kv("ids", jints(all)).str() << "\n";
+      os << Ev("OffUnit").kn("g", g).kn("d", d).kn("rs", rs).kn("at", at).kn("et", (int)og.et).kn("jt", (int)og.jt).kn("npaths", (long long)og.paths.size()).kv("ids", jints(all)).str() << "\n";
     }
     run_chunked(in, os, skip, stride, nh, kind, [&](const std::string& l, std::ostream& o, long long cno) { w.ring_os = &o; w.id_bias = (int)(cno % 2000) * 1000000; JV h = jparse(l); run_off(w, h, o, nexec); });
   } else if (kind == "rc") {
